@@ -124,6 +124,38 @@ def main(argv=None):
             if s not in assumptions:
                 assumptions.append(s)
 
+    # composition lemmas over the contracts: every hypothesis must be backed by obligations generated and discharged in THIS run
+    for lname in spec.get("lemmas", []):
+        from .ctx import ObligationResult
+        try:
+            lmod = importlib.import_module("contracts.lemmas." + lname)
+            lem = lmod.build()
+        except Exception as e:  # noqa
+            import traceback
+            print("CHECKER-ERROR building lemma %s: %s\n%s" % (lname, e, traceback.format_exc()))
+            return 3
+        seen = {}
+        for (_pk, _c, _run) in runs:
+            for r in _run.results:
+                seen.setdefault(r.name, []).append(r.status)
+        t1 = time.time()
+        missing = sorted({o for obs in lem["uses"].values() for o in obs if o not in seen})
+        broken = sorted({o for obs in lem["uses"].values() for o in obs if o in seen and any(st != "discharged" for st in seen[o])})
+        if missing or broken:
+            status, detail = "unknown", "links not available in this run: missing %r, not discharged %r" % (missing, broken)
+        else:
+            status, detail = lmod.prove(lem, rlimit)
+            if status == "vacuous":
+                problems.append(("vacuity", "lemma %s: hypotheses are contradictory" % lem["name"]))
+                status = "unknown"
+        lr = FunctionRun(pack, Contract_stub(lname), rlimit=rlimit)
+        lr.sha, lr.paths, lr.completed_paths, lr.canary_ok = "lemma", 1, 1, True
+        lr.results.append(ObligationResult(lem["name"], status, "z3", time.time() - t1, model={"lemma": detail} if detail else {}, path=[],
+                                           detail=lem["text"] + (" | " + detail if detail else "")))
+        runs.append((pack, lr.contract, lr))
+        assumptions.append("lemma %s: hypotheses are the named contract clauses (%d links to %d obligations); the monitor rule is assumed, not re-proved"
+                           % (lem["name"], len(lem["hypotheses"]), sum(len(v) for v in lem["uses"].values())))
+
     known = load_known()
     known_for = [k for k in known.get("findings", []) if a.prop in k.get("properties", [k.get("property")])]
 
@@ -274,7 +306,8 @@ def main(argv=None):
             exit_code = 1
         else:
             problems.append(("undecided", "solver returned unknown (z3 and cvc5) for %d obligation instance(s) and the "
-                                           "native search found no counterexample: %s" % (len(new_fail), ", ".join(names[:6]))))
+                                           "native search found no counterexample: %s%s" % (len(new_fail), ", ".join(names[:6]),
+                                           "".join(" | " + str(r.detail)[-600:] for _c, r in new_fail if str(r.name).startswith("lemma."))[:1500])))
     for b, data in new_native:
         if nviol and spec.get("replay") and b["script"] == spec["replay"]["script"] and b["args"][:1] == spec["replay"]["args"][:1]:
             continue  # same harness already reported above
